@@ -100,4 +100,11 @@ _eq_col(location, value_loc) := count(before) if {
 
 	before := trim_right(substring(location.text, 0, value_location.col - 1), " \t")
 	endswith(before, "=")
+} else := last + 1 if {
+	# the value starts on a later line: the operator is the last "=" on the line of the head,
+	# any earlier one is part of the ref, like the one inside of `h["x=y"] =`
+	util.to_location_object(value_loc).row != location.row
+
+	indices := indexof_n(location.text, "=")
+	last := indices[count(indices) - 1]
 } else := max([0, indexof(location.text, "=")]) + 1
